@@ -40,8 +40,18 @@ class TagC:
     pass
 
 
+import enum as _enum
+
+
+class TagEnum(_enum.Enum):
+    NORTH = 1
+    SOUTH = 2
+    EAST = 3
+
+
 _TAG_CLASSES = [TagA, TagB, TagC]
-TAG_KINDS = ("int", "str", "tuple", "cls", "clstuple", "fs")
+TAG_KINDS = ("int", "str", "tuple", "cls", "clstuple", "fs", "bytes", "nested",
+             "enum")
 
 
 def mk_tag(tag):
@@ -59,6 +69,12 @@ def mk_tag(tag):
         return (TagA, TagB, int(k))
     if kind == "fs":
         return (int(k), frozenset([TagA, "a", int(k), ("b", 2)]))
+    if kind == "bytes":
+        return b"tag-%d" % int(k)
+    if kind == "nested":
+        return (int(k), ("halo", (int(k) % 3, "x")), None)
+    if kind == "enum":
+        return (list(TagEnum)[k % 3], k // 3)
     if kind == "RETAG":
         return ("RETAG", int(k))
     raise ValueError(kind)
